@@ -23,7 +23,8 @@ AtP(k, v)  == [k |-> k, v |-> v]
 Ats        == IF Q THEN {AtP("none", 0), AtP("lit", 4)} ELSE {AtP("none", 0), AtP("end", 0), AtP("start", 0), AtP("lit", 4)}
 Starts     == IF Q THEN {2} ELSE {1, 4}
 NSteps     == IF Q THEN {4, 12} ELSE {3, 12, 23}
-Pats       == {"pow2", "zig"}
+\* "special": NaN and +/-Inf samples among the numbers (min/max_over_time skip NaN next to a number, sums are poisoned)
+Pats       == {"pow2", "zig", "special"}
 Fns == <<"sum_over_time", "count_over_time", "min_over_time", "max_over_time", "last_over_time", "present_over_time",
          "changes", "resets", "rate", "increase", "delta", "irate", "idelta", "deriv", "avg_over_time",
          "stddev_over_time", "stdvar_over_time", "sum_over_time", "count_over_time">>
@@ -37,9 +38,10 @@ Next == UNCHANGED g
 
 Val(pat, u) == IF pat = "pow2" THEN 2 ^ u ELSE ((u * 7) % 5) + (IF u % 3 = 0 THEN 10 ELSE 0)
 SmpOf(x) == LET ts == SetToSortSeq({u \in 0..MaxT : x.lay[u] # "-"}, LAMBDA a, b : a < b)
-            IN [i \in 1..Len(ts) |-> Smp(ts[i], IF x.lay[ts[i]] = "f" THEN "f" ELSE "s", Val(x.pat, ts[i]))]
+                SK(u) == IF x.pat # "special" THEN "f" ELSE (CASE u % 4 = 1 -> "nan" [] u % 4 = 2 -> "pinf" [] u % 8 = 3 -> "ninf" [] OTHER -> "f")
+            IN [i \in 1..Len(ts) |-> Smp(ts[i], IF x.lay[ts[i]] = "f" THEN SK(ts[i]) ELSE "s", Val(x.pat, ts[i]))]
 
-Hash(x) == (x.rng * 7 + (x.off + 3) * 13 + x.step * 17 + x.start * 19 + x.n * 23 + (IF x.pat = "zig" THEN 5 ELSE 0)
+Hash(x) == (x.rng * 7 + (x.off + 3) * 13 + x.step * 17 + x.start * 19 + x.n * 23 + (IF x.pat = "zig" THEN 5 ELSE IF x.pat = "special" THEN 9 ELSE 0)
             + FoldSet(LAMBDA u, acc : acc + (IF x.lay[u] = "-" THEN 0 ELSE IF x.lay[u] = "f" THEN u + 1 ELSE 3 * (u + 1)), 0, 0..MaxT) * 29)
 FnOf(x) == Fns[((Hash(x) \div Mod) % Len(Fns)) + 1]
 
